@@ -127,7 +127,7 @@ func splitProbes(ev map[int][]string) (probes, rest map[int][]string) {
 	probes, rest = map[int][]string{}, map[int][]string{}
 	for tag, l := range ev {
 		for _, s := range l {
-			if strings.HasPrefix(s, "d-cap ") || strings.HasPrefix(s, "probe-alias ") {
+			if strings.HasPrefix(s, "d-cap ") || strings.HasPrefix(s, "probe-alias ") || strings.HasPrefix(s, "d-closure-recover ") {
 				probes[tag] = append(probes[tag], s)
 			} else {
 				rest[tag] = append(rest[tag], s)
@@ -167,7 +167,7 @@ func diffKind(got, want map[int][]string) string {
 			if normFault(a, b) != b {
 				wa, wb := firstWord(a), firstWord(b)
 				// what about the class of a recovered value
-				if wa == wb && (wa == "d-recover" || wa == "d-recover-named" || wa == "top" || wa == "g-top" || wa == "deep-recover") {
+				if wa == wb && (wa == "d-recover" || wa == "d-recover-named" || wa == "d-indirect-recover" || wa == "d-indirect-net" || wa == "top" || wa == "g-top" || wa == "deep-recover") {
 					return wa + " class " + classKind(lastWord(a)) + " want " + classKind(lastWord(b))
 				}
 				return "got " + wa + " want " + wb
@@ -415,7 +415,7 @@ func RunC06(t *testing.T, tape *Tape) *Outcome {
 
 func hasNonProbe(o *Outcome) bool {
 	for _, v := range o.Violations {
-		if !strings.Contains(v.Signature, "d-cap") && !strings.Contains(v.Signature, "probe-alias") {
+		if !strings.Contains(v.Signature, "d-cap") && !strings.Contains(v.Signature, "probe-alias") && !strings.Contains(v.Signature, "d-closure-recover") {
 			return true
 		}
 	}
@@ -447,14 +447,14 @@ func faultName(ev string) string {
 //
 // The plan space of small call trees is enumerated completely (the
 // fault_enumeration part of C06): level A = one activation with up to two
-// deferred calls (20 defer variants: 16 plain forms + the recovering literal in
+// deferred calls (22 defer variants: 18 plain forms + the recovering literal in
 // its 4 modes) and each of 37 bodies (return; each of 18 faults; result set then
 // each of 18 faults); level B = the same root calling one child that has up to
 // one deferred call and one of the 37 bodies. Entry point = index mod 5.
 
 var c06DeferVariants = func() [][]int {
 	var v [][]int
-	for k := 0; k < 17; k++ {
+	for k := 0; k < 19; k++ {
 		if k == 5 {
 			for m := 0; m < 4; m++ {
 				v = append(v, []int{5, m})
